@@ -5,7 +5,8 @@ from vf import H, C, M
 
 RM = "ohkami/src/request/mod.rs"
 MODULES = [M(RM, "harness/C02/request_mod.rs", modname="__verif_req"), M("ohkami/src/request/method.rs", "harness/C02/method.rs"),
-           M("ohkami/src/request/headers.rs", "harness/C02/headers.rs")]
+           M("ohkami/src/request/headers.rs", "harness/C02/headers.rs"),
+           M(RM, "harness/C02/read_head.rs", modname="__verif_c02h"), M("ohkami/src/request/query.rs", "harness/C02/query_helper.rs", modname="__verif_c02q")]
 CONTRACTS = []
 B = dict(crate="ohkami", strength="bounded", tier="quick", timeout=900)
 READ_PAYLOAD = [H(f"c06_read_payload_contract_k{k:02d}", functions=["request::Request::read_payload"],
@@ -20,7 +21,14 @@ CLEAR.append(H("c05_clear_full_buffer_contract", functions=["request::Request::c
                clauses=["the earlier request filled the whole 1 KiB buffer (no NUL byte): after clear() no header, payload or context entry is observable, buffer marked unused"],
                bound="one concrete shape (buffer of 1024 non-zero bytes; one standard header, one custom header, payload, context entry with symbolic contents)",
                unwindset={"4find&IndexMap": 4, "drop_glue": 4, "v_standard_count": 4, "v_custom_count": 4, "TupleMap": 4, "memcmp": 6}, **B))
-HARNESSES = [
+HEADS = ["GET / (minimal)", "POST with query, two headers, Content-Length 3 and the body in the same read", "one header + trailing slash", "Content-Length 0 followed by the next request's bytes",
+         "unknown method", "HTTP/1.0", "no version", "target not starting with /", "header line without `: `", "head not terminated by an empty line", "target runs to the end of the input", "method only",
+         "Content-Length `1x`", "Content-Length of 23 digits", "Content-Length `-1`", "query runs to the end of the input", "a custom header"]
+READ_HEAD = [H(f"c02_read_head_concrete_k{k:02d}", functions=["request::Request::read (the synchronous request-line / header-block parsing, extracted verbatim)", "request::path::Path::init_with_request_bytes", "request::headers::Headers::append", "request::headers::Headers::insert_custom"],
+               clauses=["a well-formed head: method, path (one trailing slash ignored), query string, header values (repeated headers joined in order), Content-Length and the number of bytes that follow the head are what the wire bytes denote",
+                        "a malformed head is answered with an error response (status >= 400) or by closing the connection: never a panic (unwrap, arithmetic overflow), never a parsed request"],
+               bound="ONE concrete request head: " + HEADS[k], **B) for k in range(17)]
+HARNESSES = READ_HEAD + [
     H("c02_method_from_bytes_contract", functions=["request::method::Method::from_bytes"], clauses=["Some(m) iff bytes == m.as_str() for one of the 7 methods"], bound="tokens of length <= 8", **B),
     H("c02_header_from_bytes_sound", functions=["request::headers::Header::from_bytes"], clauses=["Some(h) => name equals h.as_str() up to ASCII case"], bound="names of length <= 12 (symbolic)", **B),
     H("c02_header_from_bytes_canonical_and_lowercase", functions=["request::headers::Header::from_bytes"], clauses=["for every standard header: canonical and all-lowercase spelling => Some(that header)"], bound="all 46 headers (symbolic index), 2 spellings", **B),
